@@ -9,7 +9,8 @@
 From AV Require Import Lib.Base Gen.Consts.
 From AV Require Import Router.Pattern Router.Match Router.Path Router.ResourceDef Router.Quoter
   Router.Spec Router.MatchProofs Router.ResourceProofs Router.ResourceProofs2 Router.QuoterProofs
-  Router.Utf8 Router.ResourceDefU Router.ResourceProofsU.
+  Router.Utf8 Router.ResourceDefU Router.ResourceProofsU Router.TableProofs.
+From AV Require Import Gen.RouterTables.
 
 Definition MAXSEG := ROUTER_MAX_DYNAMIC_SEGMENTS.
 
@@ -385,6 +386,63 @@ Proof.
   split; [split; [cbn; lia | split; [reflexivity | vm_compute; discriminate]]|].
   split; [vm_compute; reflexivity|]. split; [vm_compute; reflexivity|].
   split; [vm_compute; reflexivity|]. split; reflexivity.
+Qed.
+
+(* ------------------------------------------------- 8. translator tie (Gen/RouterTables.v) *)
+(* The string and numeric literals of resource.rs / quoter.rs are regenerated from the Rust
+   source on every run; the model's default class, tail class, flags, suffix rule, the whole
+   regex text of sample patterns, the hex-digit radix, the nibble shift, the escape byte and the
+   bit-set layout are the interpretation of exactly those literals.  A changed literal breaks one
+   of these statements. *)
+Theorem C10_tables_regex_literals :
+  (read_items (length ROUTER_DEFAULT_PATTERN) ROUTER_DEFAULT_PATTERN = Some (map compile_atom default_re) /\
+   render_re default_re = ROUTER_DEFAULT_PATTERN) /\
+  (read_items (length ROUTER_DEFAULT_PATTERN_TAIL) ROUTER_DEFAULT_PATTERN_TAIL = Some (map compile_atom tail_re) /\
+   render_re tail_re = ROUTER_DEFAULT_PATTERN_TAIL) /\
+  (read_items (length ROUTER_SUFFIX_FULL) ROUTER_SUFFIX_FULL = Some (suffix false false) /\
+   read_items (length ROUTER_SUFFIX_PREFIX) ROUTER_SUFFIX_PREFIX = Some (suffix true false)) /\
+  (read_flags ROUTER_REGEX_FLAGS = Some (true, false, []) /\ cls_mem CAny 10 = true) /\
+  ROUTER_TABLE_MAX_DYNAMIC_SEGMENTS = MAXSEG.
+Proof.
+  split; [exact default_pattern_is_not_slash_plus|]. split; [exact default_pattern_tail_is_any_star|].
+  split; [exact suffix_rule_is_generated|]. split; [exact regex_flags_are_s_minus_m | exact max_dynamic_segments_same].
+Qed.
+
+(* the regex TEXT assembled from the generated literals (REGEX_FLAGS, the format strings, the
+   suffixes, regex::escape) reads back as [compile] on sample patterns covering full / prefix /
+   tail / custom regexes / static text *)
+Theorem C10_tables_regex_text :
+  forall x, In x tie_patterns ->
+  exists re, read_regex (regex_text (fst x) (snd x)) = Some re /\ length re = length (compile (fst x) (snd x)).
+Proof.
+  intros x I. pose proof regex_text_reads_as_compile as H. rewrite forallb_forall in H. specialize (H x I).
+  destruct (read_regex (regex_text (fst x) (snd x))) as [re|]; [|discriminate].
+  exists re. split; [reflexivity|]. apply andb_true_iff in H as (L & _). apply Nat.eqb_eq. exact L.
+Qed.
+
+Theorem C10_tables_quoter :
+  (forall d, hex_digit d = to_digit QUOTER_HEX_RADIX d) /\
+  (forall d1 d2, hex_pair_to_char d1 d2 =
+     match to_digit QUOTER_HEX_RADIX d1, to_digit QUOTER_HEX_RADIX d2 with
+     | Some h, Some l => Some (h * 2 ^ QUOTER_HIGH_SHIFT + l)
+     | _, _ => None
+     end) /\
+  (forall q b p1 p2 rem,
+     escape_at q (b :: p1 :: p2 :: rem) =
+     if bytes_eqb [b] QUOTER_ESCAPE_BYTE then
+       match hex_pair_to_char p1 p2 with
+       | Some ch => if (ch <? QUOTER_ASCII_LIMIT) && bit_at q ch then None else Some (ch, rem)
+       | None => None
+       end
+     else None) /\
+  (forall prot, quoter_new prot =
+     if forallb (fun ch => N.shiftr ch QUOTER_BITMAP_INDEX_SHIFT <? QUOTER_BITMAP_BYTES) prot
+     then Val prot else Panic) /\
+  (forall a b, N.shiftr a QUOTER_BITMAP_INDEX_SHIFT = N.shiftr b QUOTER_BITMAP_INDEX_SHIFT ->
+               N.land a QUOTER_BITMAP_BIT_MASK = N.land b QUOTER_BITMAP_BIT_MASK -> a = b).
+Proof.
+  split; [exact hex_digit_is_to_digit_radix|]. split; [exact hex_pair_uses_shift|].
+  split; [exact escape_at_uses_generated|]. split; [exact quoter_new_is_bitmap_bound | exact bitmap_position_injective].
 Qed.
 
 (* ------------------------------------------------------------------------------ non-vacuity *)
